@@ -268,13 +268,15 @@ class XsdWildcard(XsdComponent):
 
     def union(self, other: Union['XsdAnyElement', 'XsdAnyAttribute']) -> None:
         """Update an XSD wildcard with the union of itself and another XSD wildcard."""
-        if not self.not_qname:
-            self.not_qname = copy(other.not_qname)
-        else:
-            self.not_qname = {
-                x for x in self.not_qname
-                if x in other.not_qname or not other.is_namespace_allowed(get_namespace(x))
-            }
+        # A name is disallowed by the union only if it's not admitted by both wildcards
+        self.not_qname = {
+            x for x in self.not_qname
+            if x in other.not_qname or
+            not x.startswith('##') and not other.is_namespace_allowed(get_namespace(x))
+        } | {
+            x for x in other.not_qname
+            if not x.startswith('##') and not self.is_namespace_allowed(get_namespace(x))
+        }
 
         if self.not_namespace:
             if other.not_namespace:
@@ -326,15 +328,16 @@ class XsdWildcard(XsdComponent):
         if w1.target_namespace in w2.namespace and '' in w2.namespace:
             self.namespace.clear()
             self.namespace.add('##any')
-        elif '' not in w2.namespace and w1.target_namespace == w2.target_namespace:
+        elif '' not in w2.namespace and w1.target_namespace not in w2.namespace \
+                and w1.target_namespace == w2.target_namespace:
             self.namespace.clear()
             self.namespace.add('##other')
         elif self.xsd_version == '1.0':
             msg = _("not expressible wildcard namespace union: {0!r} V {1!r}:")
             raise XMLSchemaValueError(msg.format(other.namespace, self.namespace))
         else:
+            self.not_namespace = {'', w1.target_namespace} - w2.namespace
             self.namespace.clear()
-            self.not_namespace = {'', w1.target_namespace}
 
     def intersection(self, other: Union['XsdAnyElement', 'XsdAnyAttribute']) -> None:
         """Update an XSD wildcard with the intersection of itself and another XSD wildcard."""
